@@ -34,7 +34,8 @@ def po_escape(s):
         elif ch == '\x00':
             out.append('\\000')
         elif ord(ch) < 0x20 or ch == '\x7f':
-            out.append('\\x%02x' % ord(ch) if ch not in '\x1b' else ch)   # ESC also raw: both spellings occur
+            # three octal digits: unambiguous whatever follows (a hex escape would swallow a following hex digit in gettext: D29)
+            out.append('\\%03o' % ord(ch) if ch not in '\x1b' else ch)   # ESC also raw: both spellings occur
         else:
             out.append(ch)
     return ''.join(out)
@@ -260,7 +261,16 @@ SLOTS.update({
     'python-brace-format': _m_format('python-brace-format', lambda t, r: ('{a} {0}', '{' + t + '} {a:' + t + '}')),
     'python-brace-format-2': _m_format('python-brace-format', lambda t, r: ('{' + t + '}', '{x' + t + '!' + t + '}')),
     'perl-brace-format': _m_format('perl-brace-format', lambda t, r: ('{a}', '{' + t + '} {b' + t + '}')),
+    # file text inside the index of a python-brace field name ("[" anything but "]" "]") becomes the KEY that the
+    # unknown-argument / missing-argument diagnostics print
+    'python-brace-index': _m_format('python-brace-format', lambda t, r: ('brace {A}', 'brace {A} {B[' + _idx(t) + ']}')),
+    'python-brace-index-2': _m_format('python-brace-format', lambda t, r: ('{A[' + _idx(t) + ']} {0}', '{0}')),
+    'python-brace-index-3': _m_format('python-brace-format', lambda t, r: ('{0[' + _idx(t) + '].x}', '{0[' + _idx(t) + 'y]:d}')),
 })
+
+
+def _idx(t):
+    return ''.join(ch for ch in t if ch not in ']{}') or 'i'
 
 
 def hostile_catalog(rng, nslots=None):
